@@ -245,7 +245,7 @@ pub fn models() -> &'static Vec<Model> {
         whole!("Date", Date, vec![date(), s("D:19991231235959Z"), s("D:20240101120000-08'00'"), s("D:2024"), s("D:202402")]);
         whole!("Rectangle", Rectangle, vec![rect(), Val::Array(vec![i(-1), i(-2), rl("3.25"), i(2147483647)])]);
         whole!("Matrix", Matrix, vec![Val::ints(&[1, 0, 0, 1, 0, 0]), Val::Array(vec![rl("0.5"), i(-1), i(2), rl("1e0".replace("e0", ".0").as_str()), i(72), rl("720.25")])]);
-        whole!("Dest", Dest, vec![Val::Array(vec![Val::r(3), n("Fit")]), Val::Array(vec![Val::r(3), n("XYZ"), i(10), Val::Null, rl("1.5")]), Val::Array(vec![Val::r(3), n("XYZ"), Val::Null, i(20), i(0)]), Val::Array(vec![Val::r(3), n("FitH"), i(700)]), Val::Array(vec![Val::r(3), n("FitV"), rl("10.5")]), Val::Array(vec![Val::r(3), n("FitR"), i(1), i(2), i(3), i(4)]), Val::Array(vec![Val::r(3), n("FitB")]), Val::Array(vec![Val::r(3), n("FitBH"), i(5)])]);
+        whole!("Dest", Dest, vec![Val::Array(vec![Val::r(3), n("Fit")]), Val::Array(vec![Val::r(3), n("XYZ"), i(10), Val::Null, rl("1.5")]), Val::Array(vec![Val::r(3), n("XYZ"), Val::Null, i(20), i(0)]), Val::Array(vec![Val::r(3), n("XYZ"), i(0), i(792), Val::Null]), Val::Array(vec![Val::r(3), n("XYZ"), rl("0.0"), i(0), rl("2.0")]), Val::Array(vec![Val::r(3), n("XYZ"), i(-5), rl("0.5"), i(1)]), Val::Array(vec![Val::r(3), n("FitH"), i(0)]), Val::Array(vec![Val::r(3), n("FitV"), i(0)]), Val::Array(vec![Val::r(3), n("FitR"), i(0), i(0), i(0), i(0)]), Val::Array(vec![Val::r(3), n("FitBH"), i(0)]), Val::Array(vec![Val::r(3), n("FitH"), i(700)]), Val::Array(vec![Val::r(3), n("FitV"), rl("10.5")]), Val::Array(vec![Val::r(3), n("FitR"), i(1), i(2), i(3), i(4)]), Val::Array(vec![Val::r(3), n("FitB")]), Val::Array(vec![Val::r(3), n("FitBH"), i(5)])]);
         whole!("MaybeNamedDest", MaybeNamedDest, vec![s("named"), Val::Array(vec![Val::r(3), n("Fit")])]);
         whole!("Action", Action, vec![Val::dict(vec![("S", n("GoTo")), ("D", s("named"))]), Val::dict(vec![("S", n("GoTo")), ("D", Val::Array(vec![Val::r(3), n("Fit")]))]), Val::dict(vec![("S", n("URI")), ("URI", s("http://x"))])]);
         whole!(
